@@ -12,6 +12,8 @@ RULE = ("cases: 4 process kinds x {NRTL, UNIQUAC} x built-in/synthetic mixtures 
         "UNIQUAC activity coefficients overflow) x 1..8 steps; 70% coarse discretisations in which step 0 removes 10%..1000% of the feed, "
         "30% fine ones (1e-4..0.1). Oracle: a returned trajectory has feed mass > 0 and finite, feed/permeate fractions in [0,1], feed "
         "temperature finite and > 0, finite fluxes and heats in every reported step; raising is accepted. "
+        "Constructed classes: single self-cooling overshoots, feeds near the overflow of the vapour pressure, programmes below 0 K or "
+        "overflowing to +inf, non-selective membranes exhausted cumulatively, steps at the exhaustion boundary of one component. "
         "non-trivial = the call raised, or the returned trajectory is stressed (final mass < 50% of the initial, temperature moved > 30 K, "
         "or steps x removal >= 1); distinct = SHA-1 of the case JSON")
 ASSUMPTIONS = ["any exception type counts as 'raises'", "only reported states are examined (the popped look-ahead state is not)"]
